@@ -1791,21 +1791,6 @@ def unit_topn(inj, scratch):
     return dict(functions=[r], dropped=[d], assumptions=['std BTreeMap behaves as a finite map ordered by key (sorted-vector stand-in)'])
 
 
-def unit_groupby(inj, scratch):
-    """Searcher::partition_output_buffer: whole function verbatim (signature included) on a heap-free shim world with token texts."""
-    frag_begin(inj)
-    s = src('src/searcher.rs', scratch)
-    it = s.fn('partition_output_buffer', impl='Searcher')
-    whole = dedent(s.text[it['sig_start']:it['end']])
-    text = ('pub mod groupby {\npub mod world {\n' + H('frag_groupby_prelude.rs') + '\nimpl Searcher {\n// ---- verbatim: fn partition_output_buffer ----\npub ' + whole + '\n}\n}\n'
-            + H('frag_groupby.kani.rs') + '\n}\n')
-    inj.new_file(FRAG_FILE, text)
-    r, d = frag_record('groupby::Searcher::partition_output_buffer', 'src/searcher.rs', 'impl Searcher / fn partition_output_buffer (whole function incl. signature, verbatim, as a method of a shim Searcher)',
-                       whole, whole, ['String -> one-byte token type of the same name; HashMap, Vec -> fixed-capacity array-backed stand-ins with the std method names used (new, contains_key, get, get_mut, insert; push, iter, collect, vec!); Expr -> shim whose to_string() is its id'],
-                       'hashing (the real HashMap); how raw_output_buffer is filled (C07.columns.evaluated)')
-    return dict(functions=[r], dropped=[d], assumptions=['std HashMap: contains_key / get_mut / insert / get behave as a finite map (association-list stand-in)'])
-
-
 def unit_grouprows(inj, scratch):
     """list_search_results: the block of `if !self.query.grouping_fields.is_empty() {..}` (grouped aggregate output), verbatim, together with the
     whole partition_output_buffer, on a heap-free shim world."""
